@@ -262,6 +262,11 @@ class Interp:
                 if v.size() == n: return v
                 if v.size() > n: return z3.Extract(n - 1, 0, v)
                 return (z3.SignExt if self.ty_of_operand(fr, m.group(1)) in SIGNED else z3.ZeroExt)(n - v.size(), v)
+            if to in INT and (isinstance(v, bool) or z3.is_bool(v)):
+                # `cond as i32`: 0 / 1
+                n = INT[to]
+                if isinstance(v, bool): return z3.BitVecVal(1 if v else 0, n)
+                return z3.If(v, z3.BitVecVal(1, n), z3.BitVecVal(0, n))
             return v
         # aggregates
         head, aargs = split_head(rv)
